@@ -491,7 +491,8 @@ class DefaultParser(Parser):
         try:
             pred = self._read_predicate(context)
         except UndefinedPredicateError as err:
-            if not self.opts['auto_preds']:
+            if not self.opts['auto_preds'] or not hasattr(self.predicates, 'add'):
+                # nothing can be declared (option off, or an immutable store)
                 raise
             coords = err.coords
         else:
@@ -643,7 +644,8 @@ class StandardParser(DefaultParser, primary=True):
         try:
             pred = self._read_predicate(context)
         except UndefinedPredicateError as err:
-            if not self.opts['auto_preds']:
+            if not self.opts['auto_preds'] or not hasattr(self.predicates, 'add'):
+                # nothing can be declared (option off, or an immutable store)
                 raise
             coords = err.coords
         else:
